@@ -451,5 +451,7 @@ func runC13(cfg Config, args []string) int {
 		Required: []string{"n:compared_runs", "n:simulated_markers_used"},
 	}
 	rep := RunBatch(b, start)
+	rep.Stats.Counters["n:groups"] = rep.Stats.Counters["evaluations"]
+	rep.Stats.Counters["evaluations"] = rep.Stats.Counters["n:compared_runs"]
 	return Finish(rep)
 }
